@@ -42,6 +42,7 @@ package ext
 //@ func ParseInt
 //@   trusted
 //@   modifies ghost.errMade at 0
+//@   ensures result1 == nil && base == 10 ==> result0 == ifun(atoi, s)
 //@   ensures result1 != nil ==> ghost(errMade, 0) == 1
 //@   ensures result1 == nil ==> ghost(errMade, 0) == old(ghost(errMade, 0))
 
@@ -54,9 +55,11 @@ package ext
 //@ func (*Scanner).Scan
 //@   trusted
 //@   modifies scanner.Scanner.*
+//@   modifies ghost.tokText.*
 //@   ensures s.ErrorCount >= old(s.ErrorCount)
 //@ func (*Scanner).TokenText
 //@   trusted
+//@   ensures result == gstr(tokText, s)
 
 //@ package path/filepath
 //@ func Join
@@ -68,3 +71,9 @@ package ext
 //@   trusted
 //@ func IsNotExist
 //@   trusted
+
+
+//@ package strings
+//@ func Trim
+//@   trusted
+//@   ensures cutset == "\"" ==> result == sfun(trimq, s)
